@@ -685,7 +685,7 @@ BOUND = 'source rows <= 4 (pivot, thorough 5), <= 3 per side (join, thorough 4),
 
 def _run(repo, task, areas, name):
     tier = task.get('tier', 'quick')
-    rep = Rep(name, task, rule=RULE, bound=BOUND, budget_s=38 if tier == 'quick' else 580)
+    rep = Rep(name, task, rule=RULE + ' Added: pivot configurations whose data fields are listed in an order other than their column order.', bound=BOUND, budget_s=38 if tier == 'quick' else 580)
     cases = []
     for a in areas:
         cases += list(CASES[a](tier))
